@@ -56,6 +56,14 @@ type Rec struct {
 
 func (r *Rec) add(e *Event) { e.norm(); r.evs = append(r.evs, e) }
 
+// freshVal makes a value id for writes issued by visitors / callbacks (valid for every value codec: "v<number>").
+var freshCtr int
+
+func freshVal() string {
+	freshCtr++
+	return "v" + strconv.Itoa(800000+freshCtr)
+}
+
 func curThread() int {
 	if t := vsched.Cur(); t >= 0 {
 		return t + 1
@@ -85,7 +93,7 @@ func (rn *runner) cbFor(id string) func(k, v string) {
 		case "cbGet":
 			rn.call(t, SeqOp{Op: "Get", K: k})
 		case "cbSet":
-			rn.call(t, SeqOp{Op: "Set", K: k, V: "r" + v, D: 0})
+			rn.call(t, SeqOp{Op: "Set", K: k, V: freshVal(), D: 0})
 		case "cbDel":
 			rn.call(t, SeqOp{Op: "Delete", K: k})
 		case "cbCount":
@@ -116,7 +124,7 @@ func (rn *runner) visitorFor(t int, name string, arg SeqOp, nvis *int, balSeen m
 		case "del": // delete the visited key
 			rn.call(t, SeqOp{Op: rn.delOp(), K: k})
 		case "upd": // overwrite the visited key
-			rn.call(t, SeqOp{Op: rn.storeOp(), K: k, V: "u" + v})
+			rn.call(t, SeqOp{Op: rn.storeOp(), K: k, V: freshVal()})
 		case "ins": // insert another key once
 			if !fired {
 				fired = true
@@ -310,6 +318,7 @@ func (rn *runner) setup() *Event {
 // runOnce executes the scenario once under pick and returns the history.
 func runOnce(sc *Scenario, pick vsched.Picker, keepLog bool, before func(r *vsched.Run)) (*Rec, *vsched.Run) {
 	rn := &runner{sc: sc, rec: &Rec{}}
+	freshCtr = 0
 	hdr := rn.setup()
 	defer clearPin()
 	// the evicted callback closes over the runner, which holds the cache: a cycle through an object with a finalizer (the
@@ -451,6 +460,7 @@ type BadRun struct {
 	ParkAt  int      `json:"parkat"`
 	Trace   int      `json:"trace"`
 	Tail    []string `json:"tail"`
+	Panic   string   `json:"panic"`
 }
 
 func tailOf(run *vsched.Run) []string {
@@ -463,6 +473,13 @@ func tailOf(run *vsched.Run) []string {
 		}
 	}
 	return r
+}
+
+func panicOf(run *vsched.Run) string {
+	if run.PanicVal == nil {
+		return ""
+	}
+	return fmt.Sprint(run.PanicVal)
 }
 
 func choicesOf(run *vsched.Run) []int {
@@ -506,7 +523,7 @@ func runScenario(sc *Scenario, tw *TraceWriter, trBase *int) *ConcStats {
 			}
 		}
 		if run.Outcome != vsched.OK && len(st.Bad) < 5 {
-			st.Bad = append(st.Bad, BadRun{Outcome: run.Outcome, Choices: choicesOf(run), Stuck: run.Stuck, Pending: pendingOf(run), ParkAt: parkAt, Trace: *trBase, Tail: tailOf(run)})
+			st.Bad = append(st.Bad, BadRun{Outcome: run.Outcome, Choices: choicesOf(run), Stuck: run.Stuck, Pending: pendingOf(run), ParkAt: parkAt, Trace: *trBase, Tail: tailOf(run), Panic: panicOf(run)})
 		}
 	}
 	s := sc.Strategy
